@@ -249,19 +249,23 @@ func runC09(w *World, r *Report, tier string) {
 	for _, f := range lib {
 		for _, c := range w.callsIn(f, "xmpp.Client.recv") {
 			nStart++
-			cons := fmt.Sprintf("%s→go recv", w.funcKey(f))
+			cons := fmt.Sprintf("%s→go recv", w.ownerKey(f))
 			_, isGo := c.(*ssa.Go)
-			// dominated by the err==nil edge of connect()
-			okDom := false
-			cut := edgesAsserting(f, func(cv ssa.Value, truth bool) bool {
-				x, eq, ok := nilCompare(cv)
-				return ok && eq == truth && w.isResultOf(x, 0, "xmpp.Client.connect")
-			})
-			if len(cut) > 0 && !reachable(entryLoc(f), func(in ssa.Instruction) bool { return in == c.(ssa.Instruction) }, nil, cut) {
-				okDom = true
+			// dominated by the err==nil edge of connect(), in every function on whose behalf the start site runs
+			okDom, okOwner := true, true
+			for _, o := range w.owners(f) {
+				cut := edgesAsserting(o, func(cv ssa.Value, truth bool) bool {
+					x, eq, ok := nilCompare(cv)
+					return ok && eq == truth && w.isResultOf(x, 0, "xmpp.Client.connect")
+				})
+				if len(cut) == 0 || reachable(entryLoc(o), func(in ssa.Instruction) bool { return in == c.(ssa.Instruction) }, nil, cut) {
+					okDom = false
+				}
+				if o.Name() != "Connect" && o.Name() != "Resume" {
+					okOwner = false
+				}
 			}
-			ownerName := w.ownerFn(f).Name()
-			r.Check(isGo && okDom && (ownerName == "Connect" || ownerName == "Resume"), "O4", cons, w.ipos(c), "a receive loop is started somewhere other than right after a successful connect()", "started only on connect()==nil")
+			r.Check(isGo && okDom && okOwner, "O4", cons, w.ipos(c), "a receive loop is started somewhere other than right after a successful connect()", "started only on connect()==nil")
 		}
 	}
 	if nStart == 0 {
